@@ -66,6 +66,19 @@ def gen_script(rng: Rng, tag: str) -> dict:
             f"    return {rng.choice([b for b in BINOPS if b.startswith('op.')]).format('p', 'q')}",
             "",
         ]
+    # helpers in further custom opset domains; they are called from inside control-flow blocks, so a block can be the
+    # first place of a function where several opset domains are used
+    block_helpers: list[str] = []
+    for dom in ("dsim.other", "dsim.third", "dsim.fourth"):
+        if rng.chance(0.3):
+            short = dom.split(".")[1]
+            lines += [f"{short.upper()}_OPSET = Opset({dom!r}, 1)" if "from onnxscript.values import Opset" in "\n".join(lines)
+                      else f"from onnxscript.values import Opset\n{short.upper()}_OPSET = Opset({dom!r}, 1)",
+                      f"@script({short.upper()}_OPSET)",
+                      f"def blk_{short}_{tag}(p: FLOAT['N'], q: FLOAT['N']) -> FLOAT['N']:",
+                      f"    return {rng.choice([b for b in BINOPS if b.startswith('op.')]).format('p', 'q')}",
+                      ""]
+            block_helpers.append(f"blk_{short}_{tag}")
     # a deeper call graph: f -> mid_i -> leaf_i (several branches), so that the set of transitively called
     # functions has to be collected and ordered when the model proto is built
     mids: list[str] = []
@@ -132,7 +145,10 @@ def gen_script(rng: Rng, tag: str) -> dict:
     def block_assign(names: list[str], depth_ind: str, avail: list[str]) -> list[str]:
         out = []
         for v in names:
-            out.append(f"{depth_ind}{v} = {_expr(rng, avail)}")
+            if block_helpers and rng.chance(0.4):
+                out.append(f"{depth_ind}{v} = {rng.choice(block_helpers)}({rng.choice(avail)}, {rng.choice(avail)})")
+            else:
+                out.append(f"{depth_ind}{v} = {_expr(rng, avail)}")
         return out
 
     nblocks = rng.randint(1, 3)
